@@ -22,7 +22,7 @@ def run(ctx: evid.Ctx) -> None:
         # a session that has already completed 126 operations ("start from non-initial states too")
         bases = [0, 126] if (role == "client" or ctx.tier == "thorough") else [0]
         for base in bases:
-            res = sess.explore(role, b[role] if base == 0 else min(b[role], 2), known, ctx.seed, parallel=True, prop=PROP, id_base=base)
+            res = sess.explore(role, b[role] if base == 0 else min(b[role], 2), known, ctx.seed, parallel=True, prop=PROP, id_base=base, cap=30000 if ctx.tier == "thorough" else 8000)
             sess.report(ctx, PROP, role, b[role] if base == 0 else min(b[role], 2), res, base)
             ctx.note(f"{role}_bfs_levels_base{base}", res.levels)
     for role in ROLES:
